@@ -25,7 +25,7 @@ struct PlanStep {
 	uint32_t preEv = 0, postEv = 0;      // events carrying P_pre / P_post snapshots
 	std::vector<TaskV> pre, post, fired;
 	bool postIsSubseq = true;
-	int outcome = 0;                      // 0 none, 1 planSucceeded, 2 planFailed
+	int outcome = 0;                      // 0 none, 1 planSucceeded, 2 planFailed, 3 hidden outcome (headless machine)
 	uint32_t outcomeEv = 0;
 	int outcomes = 0;
 };
@@ -74,7 +74,7 @@ inline bool isUpdPhase(uint8_t m) { return m == M_PRE_UPDATE || m == M_UPDATE ||
 inline bool isReactPhase(uint8_t m) { return m == M_PRE_REACT || m == M_REACT || m == M_POST_REACT; }
 inline bool isPhase(uint8_t m) { return isUpdPhase(m) || isReactPhase(m); }
 inline bool isOutcome(uint8_t m) { return m == M_PLAN_SUCCEEDED || m == M_PLAN_FAILED; }
-inline bool hasSnap(const Ev& e) { return e.kind == EV_CB || e.kind == EV_BEGIN || e.kind == EV_END || (e.kind == EV_NOTE && e.method == NOTE_AFTER); }
+inline bool hasSnap(const Ev& e) { return e.live && (e.kind == EV_CB || e.kind == EV_BEGIN || e.kind == EV_END || (e.kind == EV_NOTE && e.method == NOTE_AFTER)); }
 
 inline std::vector<TaskV> snap(const Trace& t, const Ev& e) { return std::vector<TaskV>(t.pool + e.planOff, t.pool + e.planOff + e.planLen); }
 
@@ -159,13 +159,30 @@ inline void parseRounds(const Trace& t, Win& w, bool activation, uint32_t from, 
 	}
 }
 
-inline bool subseqDiff(const std::vector<TaskV>& x, const std::vector<TaskV>& y, std::vector<TaskV>& removed) {
+// y must be an in-order remainder of x. Matching is done from the END: a correct plan step removes a prefix-structured
+// set, which this matching recovers exactly even when tasks repeat. `mask` (optional) marks the removed positions of x.
+inline bool subseqDiff(const std::vector<TaskV>& x, const std::vector<TaskV>& y, std::vector<TaskV>& removed, std::vector<char>* mask = nullptr) {
 	removed.clear();
-	size_t j = 0;
-	for (size_t i = 0; i < x.size(); ++i) {
-		if (j < y.size() && x[i] == y[j]) ++j; else removed.push_back(x[i]);
+	std::vector<char> m(x.size(), 1);
+	size_t j = y.size();
+	for (size_t i = x.size(); i-- > 0;) {
+		if (j > 0 && x[i] == y[j - 1]) { --j; m[i] = 0; }
 	}
-	return j == y.size();
+	for (size_t i = 0; i < x.size(); ++i) if (m[i]) removed.push_back(x[i]);
+	if (mask) *mask = m;
+	return j == 0;
+}
+
+// what is left outstanding once the guard rounds of a window are over
+inline void settle(InstTrack& S, const Win& w, const Info& f) {
+	const size_t limit = f.L;
+	size_t evals = w.rounds.size();
+	if (w.activation && evals > 0) evals -= 1;   // the initial evaluation is not a substitution
+	if (S.out.valid) {
+		if (evals >= limit) { S.leftover = true; S.outKnown = false; }   // limit reached: the request stays outstanding -- or was silently dropped as a duplicate of the
+		                                                                   // accepted transition; not decidable from outside, so re-synchronise from control.request()
+		else { S.out = TrV{}; S.outKnown = true; }                       // dropped as a duplicate of the accepted transition
+	}
 }
 
 inline void analyse(const Trace& t, Analysis& A) {
@@ -193,18 +210,27 @@ inline void analyse(const Trace& t, Analysis& A) {
 
 		// --- walk the window, tracking the outstanding request ---------------------------------
 		if (w.type == WT_OP && (w.code == OP_CHANGE || w.code == OP_IMMEDIATE)) { S.out = mkReq(NOID, first.a, first.c); S.outKnown = true; S.leftover = false; }
-		if (w.type == WT_OP && (w.code == OP_LOAD || w.code == OP_EXIT)) { S.out = TrV{}; S.outKnown = true; S.leftover = false; }
-		if (w.type == WT_TEARDOWN) { S.out = TrV{}; S.outKnown = true; }
+		if (w.type == WT_OP && w.code == OP_LOAD) { S.outKnown = false; S.leftover = false; }   // load discards the request; whether its callbacks still see it is not specified
 
 		// phase part and plan step (update / react)
 		uint32_t procFrom = w.b + 1;
 		if (w.type == WT_OP && (w.code == OP_UPDATE || w.code == OP_REACT)) {
 			uint32_t pe = w.b + 1;
+			bool prevIsPhaseAct = false;
 			for (uint32_t i = w.b + 1; i < w.e; ++i) {
 				const Ev& e = t.ev[i];
 				if (e.kind == EV_CB && !isPhase(e.method)) break;
 				if (e.kind == EV_END) break;
-				pe = i + 1;
+				// events that belong to a phase callback: the callback, its actions, their records and results, its after-note
+				bool mine = false;
+				if (e.kind == EV_CB) mine = true;
+				else if (e.kind == EV_ACT) mine = isPhase(e.d);
+				else if (e.kind == EV_NOTE && e.method == NOTE_AFTER) mine = isPhase(e.d);
+				else if (e.kind == EV_NOTE && e.method == NOTE_APPEND_RESULT) mine = prevIsPhaseAct;
+				else if (e.kind == EV_LOG) mine = prevIsPhaseAct && e.method != LOG_METHOD;
+				if (mine) pe = i + 1;
+				if (e.kind == EV_ACT) prevIsPhaseAct = isPhase(e.d);
+				else if (!(e.kind == EV_LOG && prevIsPhaseAct && e.method != LOG_METHOD)) prevIsPhaseAct = false;
 			}
 			w.phaseEnd = pe;
 			procFrom = pe;
@@ -236,14 +262,22 @@ inline void analyse(const Trace& t, Analysis& A) {
 					}
 				}
 				p.postIsSubseq = subseqDiff(p.pre, p.post, p.fired);
-				if (p.outcome) p.fired.clear();  // with an outcome the post snapshot is the callback's own view of the plan
-				if (p.outcome && !(p.pre.size() == p.post.size())) p.postIsSubseq = false;
+				if (!f.head && !p.outcome && !p.pre.empty() && p.post.empty()) {
+					// headless machine: a plan outcome is delivered to an empty root and is invisible to callbacks.
+					// The plan emptied either because every task fired (then the guards evaluate the last task's request first)
+					// or because of a hidden outcome.
+					const TaskV& q = p.pre.back();
+					const bool firedAll = !w.rounds.empty() && w.rounds[0].pend.valid && w.rounds[0].pend.origin == q.origin && w.rounds[0].pend.dest == q.dest &&
+						w.rounds[0].pend.hasPay == q.hasPay && (!q.hasPay || w.rounds[0].pend.seed == q.seed);
+					if (!firedAll) { p.outcome = 3; p.fired.clear(); }
+				}
+				if (p.outcome == 1 || p.outcome == 2) { p.fired.clear(); if (p.pre.size() != p.post.size()) p.postIsSubseq = false; }
 			}
 		}
 
 		// second pass: request tracking + annotations
 		size_t nextRound = 0;
-		bool planStepDone = false;
+		bool planStepDone = false, settled = false;
 		for (uint32_t i = w.b; i < w.e; ++i) {
 			const Ev& e = t.ev[i];
 			if (e.inst != w.inst) continue;
@@ -260,22 +294,20 @@ inline void analyse(const Trace& t, Analysis& A) {
 				++nextRound;
 				if (!(w.activation && roundIdx == 0)) { S.out = TrV{}; S.outKnown = true; S.leftover = false; }
 			}
+			// guard processing is over once an event past the last round is reached: settle what is left outstanding
+			if (!settled && (w.processing || w.activation) && !w.rounds.empty() && nextRound == w.rounds.size() && i > w.rounds.back().last &&
+				!(e.kind == EV_ACT || (e.kind == EV_NOTE && (e.method == NOTE_AFTER || e.method == NOTE_APPEND_RESULT || e.method == NOTE_EXCLUDED_ACTIVATION_VETO)) || e.kind == EV_LOG)) {
+				settled = true;
+				settle(S, w, f);
+			}
 			A.ann[i].round = roundIdx;
 			if (e.kind == EV_CB) { A.ann[i].outKnown = S.outKnown; A.ann[i].out = S.out; }
 			if (e.kind == EV_ACT && e.method == ACT_REQUEST) { S.out = mkReq(e.state, e.a, e.c); S.outKnown = true; S.leftover = false; }
 		}
 		// after processing: what is left outstanding?
-		if ((w.processing || w.activation) && w.complete) {
-			const size_t limit = f.L;
-			size_t evals = w.rounds.size();
-			if (w.activation && evals > 0) evals -= 1;   // the initial evaluation is not a substitution
-			if (S.out.valid) {
-				if (evals >= limit) { S.leftover = true; }      // limit reached: request stays outstanding (or was a silent duplicate: unknown)
-				else { S.out = TrV{}; S.outKnown = true; }       // dropped as a duplicate of the accepted transition
-				if (evals >= limit) S.outKnown = false;          // cannot tell a left-over from a dropped duplicate without looking inside: resync from observation
-			}
-		}
-		if (w.type == WT_OP && w.code == OP_REPLAY) { /* replay leaves the outstanding request alone */ }
+		if ((w.processing || w.activation) && w.complete && !settled) settle(S, w, f);
+		// deactivation discards the outstanding request (its exit callbacks still see it)
+		if ((w.type == WT_OP && (w.code == OP_EXIT || w.code == OP_RECONSTRUCT || w.code == OP_LOAD)) || w.type == WT_TEARDOWN) { S.out = TrV{}; S.outKnown = true; S.leftover = false; }
 		if (w.aborted) S.dead = true;
 		// resync unknown from the library's own report at the next callback (checks relying on it are skipped there)
 		if (!S.outKnown) {
